@@ -17,6 +17,8 @@ pub mod net;
 pub mod receipts;
 pub mod ser;
 pub mod test_utils;
+/// Verification hook (H1/H2): crash points around durable writes.
+pub mod verif;
 
 use std::fmt;
 use std::{convert::TryFrom, str::FromStr};
